@@ -125,6 +125,21 @@ WriteOrder(w) == [j \in 1..Len(w) |-> [f |-> w[j].f, i |-> w[j].i, app |-> w[j].
 
 CreatedIds(c) == { c[j].id : j \in 1..Len(c) }
 
+(* Installing a rule re-inserts the pages beneath its anchor "in some order": which new id   *)
+(* goes to which new webentity depends on that order, so for AddRule steps created            *)
+(* webentities are compared as groups of prefixes plus the set of ids, not id by id.          *)
+Groups(c) == { SeqToSet(c[j].prefixes) : j \in 1..Len(c) }
+IdSet(c)  == { c[j].id : j \in 1..Len(c) }
+SameCreated(op, a, b) ==
+  IF op = "AddRule"
+  THEN Groups(a) = Groups(b) /\ IdSet(a) = IdSet(b) /\ Len(a) = Len(b)
+  ELSE Len(a) = Len(b)
+       /\ { <<c.id, SeqToSet(c.prefixes)>> : c \in SeqToSet(a) } = { <<c.id, SeqToSet(c.prefixes)>> : c \in SeqToSet(b) }
+(* the prefix -> webentity map with the ids issued by this request replaced by their classes *)
+WeNorm(W, old) ==
+  { IF e[2] \in old THEN <<e[1], e[2], {}>> ELSE <<e[1], 0, { x[1] : x \in { y \in W : y[2] = e[2] } }>> : e \in W }
+SameWe(op, W1, W2, old) == IF op = "AddRule" THEN WeNorm(W1, old) = WeNorm(W2, old) ELSE W1 = W2
+
 (* clauses that read only the pre-state files, the request and the public   *)
 (* observations: evaluated even when the post-state files are broken        *)
 ObsClauses(st, rm, d, S, post, o0, o1, iss) ==
@@ -155,13 +170,11 @@ ObsClauses(st, rm, d, S, post, o0, o1, iss) ==
                        /\ Cardinality(BagPairs(InT(o1))) = Cardinality(InT(o1))>>,
       <<"C03.count",   o1.nlinks = SumW(R.A.links)>>,
       \* ---- C04 resolution: net effect of the edit on the prefix -> webentity map ----
-      <<"C04.edit",    R.A.we = WSet(o1)>>,
+      <<"C04.edit",    SameWe(S.op, R.A.we, WSet(o1), { e[2] : e \in WSet(o0) })>>,
       <<"C04.refuse",  (R.exc = "TraphException") = (S.exc = "TraphException")>>,
       <<"C04.function", Cardinality({ e[1] : e \in WSet(o1) }) = Cardinality(WSet(o1))>>,
       \* ---- C06 automatic creation ----
-      <<"C06.created", S.exc # "" \/ (Len(R.created) = Len(S.created)
-                       /\ { <<c.id, SeqToSet(c.prefixes)>> : c \in SeqToSet(R.created) }
-                          = { <<c.id, SeqToSet(c.prefixes)>> : c \in SeqToSet(S.created) })>>,
+      <<"C06.created", S.exc # "" \/ SameCreated(S.op, R.created, S.created)>>,
       <<"C06.exc",     R.exc = S.exc>>,
       \* ---- C12 ids ----
       <<"C12.fresh",   \A j \in 1..Len(S.created) : S.created[j].id > (IF S.reset THEN 0 ELSE iss)>>,
